@@ -15,12 +15,12 @@ run() {
   echo "$n|$nv|$props|$fail"
 }
 export -f run
-( ls mutants/*.patch mutants/regress/*.patch seeded/*/patch.diff ) | xargs -P $jobs -I{} bash -c 'run /verif/{}' > $out
+( ls mutants/*.patch mutants/regress/*.patch mutants/refac/*.patch seeded/*/patch.diff ) | xargs -P $jobs -I{} bash -c 'run /verif/{}' > $out
 bad=0
 sort $out | while IFS='|' read n nv props fail; do
   exp=""; ok=1
   case $n in
-    S*) [ "$nv" != 0 ] && ok=0; exp="silent";;
+    S*|R-*) [ "$nv" != 0 ] && ok=0; exp="silent";;
     F*) [ "$nv" = 0 ] && ok=0; exp="regression";;
     C*-*m*) p=${n%%-*}; exp="fires($p)"; echo "$props" | grep -q "$p" || { [ -d seeded/$n ] && [ "$nv" != 0 ] || ok=0; };;
   esac
